@@ -25,6 +25,22 @@ WORLD_NOTE = ('Modelled not verified: the dependency check inside BoundRoute.__i
               'application and of every Route object look for. ')
 
 CLAIMED = {
+ 'C18': dict(
+   text=('Theorems (Props/C18.v) over Model/Meta.v (get_resource_info with repr as a section variable): two hosts whose resources '
+         'differ only in the VALUES of secret-named entries produce the same resource listing (noninterference, any number of '
+         'resources, any value type); a secret-named resource is listed with the marker, any other with its truncated repr. The '
+         'source inventory is REGENERATED from meta.py / cookie.py on every run and pinned: the substring and that it is tested '
+         'against the key, the marker, the truncation constants, the loop of get_resource_info, every function of meta.py that reads '
+         '.resources or .secret_key (none reads secret_key), the attributes SignedCookieMiddleware.__repr__ prints (no key), the '
+         'per-peripheral try/except of both passes, the template references that bypass escaping. Tie: translator + pairs of real '
+         'hosts that differ only in secret values and signing keys, meta mounted at prefixes and embedded up to two levels deep; '
+         'HTML and JSON views: no secret token, markers present, visible resources shown, identical application sections, 200 even '
+         'when a peripheral fails (value whose repr raises).'),
+   note=COMMON_NOTE + "Modelled not verified: Python's repr (section variable), ashes rendering of the section templates, the process/"
+        'host/rusage peripherals (not compared: they vary between runs), glom. The all-pages-render clause is pinned structurally (try/except '
+        'shape) and exercised, not proved.',
+   technique='Coq proof (noninterference of the resource listing by induction over the resource list) + translator-pinned source inventory + two-run noninterference differential check',
+   design='6/C18'),
  'C17': dict(
    text=('Theorems (Props/C17.v) over Model/Render.v (branch structure of BasicRender.render_response / _serialize_to_resp / '
          '_guess_json and ClasticJSONEncoder.default over a universe of Python values of any nesting depth): render_basic yields a '
